@@ -471,6 +471,33 @@ pub fn check(case: &Case, obs: &mut Obs) -> CaseResult {
             }
         }
     }
+    // a modulated schedule is a wall-clock boundary ("the next multiple of n counted from the start of the enclosing
+    // period"): it does not refer to the start of the current unit, so only an offset change between NOW and the
+    // scheduled instant can make it ambiguous
+    let mut constant_from_now = case.modulate && res.offset().local_minus_utc() as i64 == off;
+    if constant_from_now && !constant {
+        let span = res_unix - case.unix;
+        for k in 1..16 {
+            if offset_at(case.unix + span * k / 16) != off {
+                constant_from_now = false;
+            }
+        }
+        let (y0, _, _) = civil_from_days(case.unix.div_euclid(86400));
+        let (y1, _, _) = civil_from_days(res_unix.div_euclid(86400));
+        if y1 - y0 <= 3 {
+            for y in y0..=y1 {
+                if transitions(y).iter().any(|t| *t > case.unix && *t <= res_unix) {
+                    constant_from_now = false;
+                }
+            }
+        } else {
+            constant_from_now = false;
+        }
+    }
+    let widened = !constant && constant_from_now;
+    if widened {
+        constant = true;
+    }
     if accepted.iter().any(|a| *a > 8_000_000_000_000) {
         // beyond chrono's calendar (year 262142): not comparable
         constant = false;
@@ -492,6 +519,7 @@ pub fn check(case: &Case, obs: &mut Obs) -> CaseResult {
     obs.class(format!("unit={:?}", case.unit));
     obs.class(format!("feature={}", case.feature));
     obs.class_if(constant, "offset-constant(reference-compared)");
+    obs.class_if(constant && widened, "offset-changed-earlier-in-the-current-unit(modulated:reference-compared)");
     obs.class_if(!constant, "offset-changes(no-panic+future-only)");
     obs.class_if(near_dst, "within-1h-of-dst-transition");
     obs.class_if(near_boundary, "within-2s-of-unit-boundary");
@@ -968,7 +996,7 @@ pub fn replay(part: &str, case: serde_json::Value) -> Option<CaseResult> {
 pub fn meta() -> EvidenceMeta {
     EvidenceMeta {
         level: "exploration",
-        rule: "one worker process per zone (UTC, two fixed offsets, five POSIX-rule DST zones incl. 30-minute and midnight transitions; thorough adds eight named zones). Layer 1 (schedule function via the guarded wrapper): instants constructed around a feature (second/minute/hour/day/ISO-week/month/year boundary, Feb 28/29, Dec 31, ISO week 53, every DST transition of the zone in a generated year 1970-2100, 9% uniform) with offsets of -2..+2 s (sometimes +-1 h) and sub-second parts 0/1/999999999/random, all seven units, n in 1..60 dense and a sparse set up to 10 000, modulate on/off; oracle: no panic, result strictly after now, and wherever chrono reports a constant UTC offset over [start of the current unit, result] the result in local wall-clock seconds equals the reference computed with the harness's own proleptic-Gregorian arithmetic (days-from-civil, ISO weeks from first principles): start of unit + n units, or with modulation either reading of 'next multiple of n counted from the start of the enclosing period' (wrap at the period end, or run past it). Part extreme: multipliers from 100 000 to i64::MAX (no-panic and future only). Layer 2 (trigger object, clock override): non-decreasing arrival sequences (bursts, gaps of seconds to a year): fires iff now >= scheduled, reschedules strictly into the future inside [next boundary, + max_random_delay), schedule unchanged between firings. Layer 3: RollingFileAppender + TimeTrigger + fixed window under the driven clock: the first record at/after the boundary is the first record of the new file. Layer 4 (real clock, no override; one child process per case): TZ is a POSIX rule whose daylight-saving time (+7 s ... +1 h) begins two seconds after the case starts; a trigger 'n seconds|minutes + modulate' (n | 60) created after the switch, and one that has been running since before it, must schedule the next multiple of n in local time under the offset now in force. non-trivial = within 2 s of a unit boundary, or leap-day/year-end/week-53 feature, or within 1 h of a DST transition (layer 1); >= 2 firings (layer 2); >= 2 rotations (layer 3)".into(),
+        rule: "one worker process per zone (UTC, two fixed offsets, five POSIX-rule DST zones incl. 30-minute and midnight transitions; thorough adds eight named zones). Layer 1 (schedule function via the guarded wrapper): instants constructed around a feature (second/minute/hour/day/ISO-week/month/year boundary, Feb 28/29, Dec 31, ISO week 53, every DST transition of the zone in a generated year 1970-2100, 9% uniform) with offsets of -2..+2 s (sometimes +-1 h) and sub-second parts 0/1/999999999/random, all seven units, n in 1..60 dense and a sparse set up to 10 000, modulate on/off; oracle: no panic, result strictly after now, and wherever chrono reports a constant UTC offset over [start of the current unit, result] (for modulated schedules, which name a wall-clock boundary: over [now, result]) the result in local wall-clock seconds equals the reference computed with the harness's own proleptic-Gregorian arithmetic (days-from-civil, ISO weeks from first principles): start of unit + n units, or with modulation either reading of 'next multiple of n counted from the start of the enclosing period' (wrap at the period end, or run past it). Part extreme: multipliers from 100 000 to i64::MAX (no-panic and future only). Layer 2 (trigger object, clock override): non-decreasing arrival sequences (bursts, gaps of seconds to a year): fires iff now >= scheduled, reschedules strictly into the future inside [next boundary, + max_random_delay), schedule unchanged between firings. Layer 3: RollingFileAppender + TimeTrigger + fixed window under the driven clock: the first record at/after the boundary is the first record of the new file. Layer 4 (real clock, no override; one child process per case): TZ is a POSIX rule whose daylight-saving time (+7 s ... +1 h) begins two seconds after the case starts; a trigger 'n seconds|minutes + modulate' (n | 60) created after the switch, and one that has been running since before it, must schedule the next multiple of n in local time under the offset now in force. non-trivial = within 2 s of a unit boundary, or leap-day/year-end/week-53 feature, or within 1 h of a DST transition (layer 1); >= 2 firings (layer 2); >= 2 rotations (layer 3)".into(),
         assumptions: vec![
             "UTC offsets are taken from chrono (precondition 'offset does not change in between' and construction of instants); the schedule reference itself uses no chrono".into(),
             "modulate: both readings accepted where they differ (the statement's wording admits both)".into(),
